@@ -1,6 +1,7 @@
 """C03 — content stays on its page and every page makes progress."""
 from fractions import Fraction
 
+from extract import monolithic
 from harness import docs, pm, pm_col_corr, pm_corr, pm_foot_corr, pm_oof_corr, pm_stage2, wide_trace
 from vlib import sx
 from vlib.framework import PropCheck
@@ -152,8 +153,8 @@ def frag_ids(frag, out):
 
 class C03(PropCheck):
     id = 'C03'
-    extractors = ()
-    modules = ('WpModel.Props.C03', 'WpModel.Props.C03Geo', 'WpModel.Props.C03Chain', 'WpModel.Props.C03Trace', 'WpModel.Witness.C03',
+    extractors = (monolithic.generate,)
+    modules = ('WpModel.Props.C03', 'WpModel.Props.C03Geo', 'WpModel.Props.C03Chain', 'WpModel.Props.C03Mono', 'WpModel.Props.C03Trace', 'WpModel.Witness.C03',
                'WpModel.Props.C03Pm2', 'WpModel.Witness.C03Pm2', 'WpModel.Props.C03Oof', 'WpModel.Props.C03Foot',
                'WpModel.Props.C03FootGeo', 'WpModel.Props.C03Col', 'WpModel.Props.C03GeoCol')
     trusted_base = (
